@@ -287,6 +287,7 @@ def validate_many(module, histories, wd, constants=None, invariants=(), limit_fa
     total = 0
     start = 0
     runs = 0
+    kfs = set()
     while start < len(histories) and len(fails) < limit_fail:
         offs, flat = [], []
         for h in histories[start:]:
@@ -299,6 +300,7 @@ def validate_many(module, histories, wd, constants=None, invariants=(), limit_fa
                                 invariants=invariants, timeout=int(os.environ.get("VERIF_TV_TIMEOUT", "900")), xmx="3g")
         if r.get("status", "").startswith("invariant"):
             raise core.ToolError("trace spec %s: state invariant failed during validation: %s" % (module, r))
+        kfs.update(r.get("kf") or [])
         if r["accepted"]:
             total += len(flat)
             break
@@ -307,7 +309,7 @@ def validate_many(module, histories, wd, constants=None, invariants=(), limit_fa
         total += offs[k]
         fails.append((start + k, m - offs[k], flat[m] if m < len(flat) else None, r.get("kf", [])))
         start = start + k + 1
-    return total, fails
+    return total, fails, kfs
 
 
 def mux_jobs(tier, wd):
@@ -378,7 +380,7 @@ def mux_part(tier, out, wd, rng, stats, cov, res):
         core.log("[C11] mux cfg %s: %d paths replayed" % (k, len(cases)))
     import time as _t
     _t0 = _t.time()
-    n_ev, fails = validate_many("Trace_MultiReader", histories, wd)
+    n_ev, fails, _ = validate_many("Trace_MultiReader", histories, wd)
     core.log("[C11]   tlc Trace_MultiReader: %d events, %.1fs" % (n_ev, _t.time() - _t0))
     st["p_events"] = n_ev
     failed_idx = set()
@@ -429,6 +431,11 @@ SIM_CLIENT = dict(SIM_SERVER, ServerMode=False, Exists=R('{}'), PathSel="A")
 TRACE_CONST = dict(Nodes=R('{"n1","n2","n3"}'), Lanes=R('{"l1","l2"}'), Bodies=R('{"b1","b2"}'), MaxInst=2,
                    EnabledFindings=R('{}'))
 ENV_ACTS = {"attach_req", "attach_done", "dl_send", "dl_detach", "agent_send", "agent_stop", "peer_send"}
+
+
+def enabled_findings():
+    """deviation actions of Trace_Remote that may fire: the open entries of known_findings/C11.json."""
+    return R("{%s}" % ", ".join('"%s"' % f["id"] for f in core.open_findings(PROP)))
 
 
 def abstract_scripts(behaviours, rng, p_settle=0.25):
@@ -652,8 +659,12 @@ def routing_part(tier, out, wd, rng, stats, cov, res):
             const = dict(TRACE_CONST, Dls=R("{1,2,3}"), Exists=R('{"n1","n2"}'), ServerMode=True)
         else:
             const = dict(TRACE_CONST, Dls=R("{1,2,3}"), Exists=R('{}'), ServerMode=False)
-        n_ev, fails = validate_many("Trace_Remote", [h for _, _, h in items], os.path.join(wd, "tv_" + g), constants=const,
-                                    invariants=["TraceInv"])
+        const["EnabledFindings"] = enabled_findings()
+        n_ev, fails, kfs = validate_many("Trace_Remote", [h for _, _, h in items], os.path.join(wd, "tv_" + g), constants=const,
+                                         invariants=["TraceInv"])
+        for f in core.open_findings(PROP):
+            if f["id"] in kfs:          # the listed defect was actually observed on this run
+                out.known_finding("%s: %s" % (f["id"], f["signature"]))
         st["events"] += n_ev
         st["rejected"] += len(fails)
         st["accepted"] += len(items) - len(fails)
@@ -755,7 +766,7 @@ def replay(path, out):
             print("panic:", res["panic"])
             print("VIOLATION property=%s replay=%s" % (PROP, path))
             return 1
-        n, fails = validate_many("Trace_MultiReader", [mr_events(case, res)], wd)
+        n, fails, _ = validate_many("Trace_MultiReader", [mr_events(case, res)], wd)
         print("P verdict:", "rejected at event %s: %s" % (fails[0][1], json.dumps(fails[0][2])) if fails else "accepted (%d events)" % n)
         if fails:
             print("VIOLATION property=%s replay=%s" % (PROP, path))
@@ -774,7 +785,10 @@ def replay(path, out):
             const = dict(TRACE_CONST, Dls=R("{1,2,3}"), Exists=R('{"n1","n2"}'), ServerMode=True)
         else:
             const = dict(TRACE_CONST, Dls=R("{1,2,3}"), Exists=R('{}'), ServerMode=False)
-        n, fails = validate_many("Trace_Remote", [h], wd, constants=const, invariants=["TraceInv"])
+        const["EnabledFindings"] = enabled_findings()
+        n, fails, kfs = validate_many("Trace_Remote", [h], wd, constants=const, invariants=["TraceInv"])
+        for k_ in sorted(kfs):
+            print("KNOWN-FINDING: property=%s %s" % (PROP, k_))
         for e in h[-25:] if not fails else h[max(0, fails[0][1] - 12): fails[0][1] + 1]:
             print("   ", json.dumps(e, ensure_ascii=False))
         print("P verdict:", "rejected at event %s: %s" % (fails[0][1], json.dumps(fails[0][2], ensure_ascii=False)) if fails else "accepted (%d events)" % n)
